@@ -471,6 +471,10 @@ class Path:
                 self.store(args[0], ("memval", kind, args[1], self.seq), None)
                 self.seq += 1
                 self.events.append(Event(kind, i, ptr=args[0], val=args[1], size=size, args=args, extra=ln))
+            elif callee and callee.startswith("llvm.expect"):
+                # __builtin_expect(x, likely) IS x: a hint to the optimiser, not a computation
+                if i.name:
+                    self.env[i.name] = args[0]
             elif callee and callee.startswith("llvm.") and not callee.startswith("llvm.va_"):
                 self.seq += 1
                 res = ("call", callee, tuple(args[:-1]) if callee.startswith(("llvm.ctpop", "llvm.ctlz", "llvm.cttz")) else tuple(args), self.seq)
